@@ -72,6 +72,14 @@ def ascii_identity(fx, name):
     # ---- the result: the input unchanged, or a String built from empty
     rv = peel(fv.return_value())
     alts = [peel(k) for k in rv.kids if k.kind != "cycle"] if rv.kind == "phi" else [rv]
+
+    def uncow(a):
+        g = 0
+        while a.kind == "agg" and a.d["agg"].get("variant") in ("Borrowed", "Owned") and len(a.kids) == 1 and g < 3:
+            a = peel(a.kids[0])
+            g += 1
+        return a
+    alts = [uncow(a) for a in alts]
     outs = []
     for a in alts:
         if must(a, is_input) and not [x for x in walk(a) if x.kind == "call" and x.d["term"].get("name") not in ("to_owned", "to_string", "clone", "from", "into", "deref", "as_str", "borrow", "as_ref")]:
